@@ -15,16 +15,19 @@ masks, upwind / downwind and U < 0.  z3 decides per path:
   zeros; for wd in {0, 90, 180, 270} the value at grid offset (X, Y) equals the
   wind-aligned value at the rotated offset (rotation about the receptor);
   Int-typed zm gives the same value as Real-typed zm.
-estimateZ0 without smoothing inverts the diabatic log law; with smoothing
-(half window 22 and 3), for k <= 3 observations placed in 1-degree direction
-bins (positions inside the bins symbolic; bins enumerated incl. those next to
-north) the set of observations entering each median is invariant under every
-whole-degree rotation of all directions (the median is an uninterpreted
-function of the selected entries).
+estimateZ0 without smoothing inverts the diabatic log law; with smoothing, the
+body of the loop over direction bins is executed ONCE with a symbolic bin index
+(range shadowed; symbolic-mask indexing is lazy) and z3 decides, for ALL
+directions in [0, 360), ALL whole-degree rotations and integer half windows
+1..45, that the set of observations entering an observation's median is
+unchanged by the rotation (the median is an uninterpreted function of the
+selection).
 
 Outside: convergence of the cell sum to the regularised incomplete gamma
-(a limit); rotation by angles that are not multiples of 90 degrees; more than
-3 observations in the smoothing."""
+(a limit); rotation of the footprint by angles that are not multiples of 90
+degrees; unstable x wd in {0, 180} (z3 unknown after 900 s; the rotation code is
+shared with the stable case); fractional rotations / half windows of the
+smoothing."""
 import itertools
 from fractions import Fraction as F
 
@@ -375,6 +378,8 @@ CANARIES = [
     ("n_unstable_coefficient", {"ffm_kormann_meixner": [("n[sflag] = (1 - 24 * zm[sflag] / mo_len[sflag])", "n[sflag] = (1 - 16 * zm[sflag] / mo_len[sflag])")]}, "fp"),
     ("rotation_sense", {"ffm_kormann_meixner": [("new_theta = theta + np.deg2rad(wd) - np.pi * 0.5", "new_theta = theta - np.deg2rad(wd) + np.pi * 0.5")]}, "fp_wd"),
     ("z0_sign", {"ffm_kormann_meixner": [("z0 = zm * np.exp(psi_m - (k * ws / ustar))", "z0 = zm * np.exp(-psi_m - (k * ws / ustar))")]}, "z0"),
+    ("window_threshold", {"ffm_kormann_meixner": [("        if kk < 90:", "        if kk < half_wd_win:"), ("        elif kk > 270:", "        elif kk > 360 - half_wd_win:")]}, "smooth"),
+    ("wrap_forgotten_on_the_high_side", {"ffm_kormann_meixner": [("            wd_wrapped[wd < 90] = wd[wd < 90] + 360", "            wd_wrapped[wd < 90] = wd[wd < 90] + 0")]}, "smooth"),
 ]
 
 
@@ -394,7 +399,7 @@ def worker(args):
         elif kind == "z0":
             f = z0_part(run, km, account=account)
         else:
-            f = smoothing_part(run, km, account=account, tier=tier)
+            f = smoothing_symbolic(run, patch=patch, account=account, hws=payload[0], wraps=payload[1])
         for name, scn, vals in f:
             run.cex.append(dict(obligation=name, scenario=scn, model=vals))
     except KeyError:
@@ -440,7 +445,9 @@ def main(run):
     L.run = run
     L.record("ffm_kormann_meixner", "estimateFootprint", "estimateZ0", "_phiM", "_phiC", "_psiM", "_mParam", "_nParam")
     run.transforms = L.transforms()
-    jobs = [("fp", cs, None, True, run.tier) for cs in cases(run.tier)] + [("sym", None, None, True, run.tier), ("z0", None, None, True, run.tier)]
+    jobs = [("fp", cs, None, True, run.tier) for cs in cases(run.tier)] + [("sym", None, None, True, run.tier), ("z0", None, None, True, run.tier)] + \
+        [("smooth", ([h], [w]), None, True, run.tier) for h in ([3, 22] if run.tier == "quick" else list(range(1, 46)))
+         for w in ((False, False), (False, True), (True, False), (True, True))]
     cex = run.pmap(worker, jobs)
     seen = set()
     for c_ in cex:
@@ -450,11 +457,11 @@ def main(run):
         res = replay(c_)
         run.report(dict(c_, property=PID, replay=res, cmd="./check C19 --replay <this file>"), res["confirmed"])
     run.bounds = dict(cells="one cell with symbolic position (covers every cell of every grid)", wd=[None, 0, 90, 180, 270],
-                      smoothing=dict(observations=3, half_windows=[22, 3], bin_configurations=7 if run.tier == "quick" else 47,
-                                     rotations="every 7th degree + critical ones" if run.tier == "quick" else "1..359"))
+                      smoothing=dict(directions="all reals in [0,360)", rotations="all integers 1..359", half_windows=[3, 22] if run.tier == "quick" else "1..45",
+                                     observations="2 (the selection of an observation depends only on its own direction and the bin)"))
     cj = []
     for name, patch, kind in CANARIES:
-        payload = {"fp": (-1, False, None), "fp_int": (-1, True, None), "fp_wd": (1, False, 0)}.get(kind)
+        payload = {"fp": (-1, False, None), "fp_int": (-1, True, None), "fp_wd": (1, False, 0), "smooth": ([22], None)}.get(kind)
         cj.append((name, ("fp" if kind.startswith("fp") else kind, payload, patch, False, "quick")))
     import concurrent.futures as cf
     import multiprocessing as mp
@@ -471,3 +478,165 @@ def main(run):
             else:
                 run.canaries["missed"].append(name)
                 run.errors.append("canary %s was not noticed by the harness" % name)
+
+
+# ---------------------------------------------------------------------------
+# directional smoothing of estimateZ0: rotation invariance of the median's selection
+#
+# The loop `for kk in range(0, 360)` of the real estimateZ0 is executed ONCE with a symbolic
+# bin index kk (the builtin range is shadowed for this module), wind directions and the half
+# window symbolic; indexing with symbolic masks is lazy (no forking).  This yields, per regime
+# (kk < 90, kk > 270, else), the formulas
+#   Assign(i; kk, wd)  : observation i receives its estimate in iteration kk
+#   Sel(j; kk, wd, hw) : observation j enters the median of iteration kk
+# z3 then decides, for ALL directions in [0, 360), all whole-degree rotations r and all
+# integer half windows in the stated range, that Sel(j; kk_i, wd) <=> Sel(j; kk_i', wd + r).
+# Two observations suffice: Sel(j) depends only on observation j's own direction and kk.
+
+
+def load_symloop(patch=None):
+    import types
+
+    env = ex.exact_env(extra_modules={"warnings": types.SimpleNamespace(warn=lambda *a, **k: None)})
+    env["patch"] = patch or {}
+    holder = {}
+
+    def sym_range(*a):
+        if tuple(a) == (0, 360):
+            return [holder["kk"]]
+        return range(*a)
+
+    env["builtins"] = dict(env["builtins"], range=sym_range)
+    L = Loader(env)
+    return L, L.load("ffm_kormann_meixner"), holder
+
+
+def smoothing_symbolic(run, patch=None, account=True, hw_lo=1, hw_hi=45, hws=None, wraps=None):
+    L, km, holder = load_symloop(patch)
+    if account:
+        run.encode("bldfm.ffm_kormann_meixner", "estimateZ0 (loop body executed once with a symbolic bin index)", L.function_source("ffm_kormann_meixner", "estimateZ0"))
+    regimes = []
+
+    def fn(c):
+        c.lazy_masks = True
+        kk = z3.Int("kk")
+        hw = z3.Int("hw")
+        holder["kk"] = ex.R(z3.ToReal(kk))
+        c.assume += [kk >= 0, kk <= 359, hw >= hw_lo, hw <= hw_hi]
+        wd = [c.real("wd0"), c.real("wd1")]
+        for w in wd:
+            c.assume += [w.v >= 0, w.v < 360]
+        ws = ex.xarr([c.real("ws0"), c.real("ws1")])
+        zm = ex.xarr([ex.R(10), ex.R(10)])
+        ustar = ex.xarr([ex.R(F(3, 10))] * 2)
+        mol = ex.xarr([ex.R(50)] * 2)
+        km.estimateZ0(zm, ws, ex.xarr(wd), ustar, mol, half_wd_win=ex.R(z3.ToReal(hw)))
+        return dict(kk=kk, hw=hw, wd=[w.v for w in wd])
+
+    for info, c in ex.explore(fn, cap=16):
+        sels = c.__dict__.get("median_selections", [])
+        stores = c.__dict__.get("masked_stores", [])
+        if not sels or not stores:
+            continue
+        sel_mask = [ex._bt(b) for b in sels[-1][0]]
+        tok = sels[-1][2]
+        assign = None
+        for mask, val in stores:
+            if isinstance(val, ex.R) and val.v is tok.v or (isinstance(val, ex.R) and z3.is_expr(val.v) and val.v.eq(tok.v)):
+                assign = [ex._bt(b) for b in mask]
+        if assign is None:
+            continue
+        regimes.append(dict(pc=z3.And(c.pc) if c.pc else z3.BoolVal(True), sel=sel_mask, assign=assign, info=info))
+    if not regimes:
+        if account:
+            run.errors.append("smoothing: no regime of the loop body could be extracted")
+        return [("no_regime", {}, {})]
+    base = regimes[0]["info"]
+    kk0, hw0, wd0 = base["kk"], base["hw"], base["wd"]
+
+    def inst(formula, kk, wd):
+        return z3.substitute(formula, (kk0, kk), (wd0[0], wd[0]), (wd0[1], wd[1]))
+
+    def Sel(j, kk, wd):
+        return z3.Or([z3.And(inst(r_["pc"], kk, wd), inst(r_["sel"][j], kk, wd)) for r_ in regimes])
+
+    def Assign(i, kk, wd):
+        return z3.Or([z3.And(inst(r_["pc"], kk, wd), inst(r_["assign"][i], kk, wd)) for r_ in regimes])
+
+    ka, kb, r_ = z3.Int("kk_a"), z3.Int("kk_b"), z3.Int("rot")
+    wa = [z3.Real("wa0"), z3.Real("wa1")]
+    found = []
+    scn = dict(half_window="integer %d..%d" % (hw_lo, hw_hi), rotation="integer 1..359", directions="all reals in [0, 360)", regimes=len(regimes))
+    twin_done = False
+    # case split (keeps every sub-query linear): half window value x wrap-around of each rotated direction
+    if hws is None:
+        hws = list(range(hw_lo, hw_hi + 1)) if run.tier == "thorough" else [1, 3, 22, 45]
+    for hwv in hws:
+        for wrap in (wraps or ((False, False), (False, True), (True, False), (True, True))):
+            wb = [w + z3.ToReal(r_) - (360 if wr else 0) for w, wr in zip(wa, wrap)]
+            s = z3.Solver()
+            s.add(hw0 == hwv, r_ >= 1, r_ <= 359, ka >= 0, ka <= 359, kb >= 0, kb <= 359)
+            for w, w2, wr in zip(wa, wb, wrap):
+                s.add(w >= 0, w < 360, w2 >= 0, w2 < 360)
+            s.add(Assign(0, ka, wa), Assign(0, kb, wb))
+            # redundant facts that follow from the assumptions and help the arithmetic core: every
+            # direction is an integer bin plus a fraction that a whole-degree rotation leaves unchanged
+            ba = [z3.Int("ba0"), z3.Int("ba1")]
+            ta = [z3.Real("ta0"), z3.Real("ta1")]
+            for w, b_, t_ in zip(wa, ba, ta):
+                s.add(w == z3.ToReal(b_) + t_, t_ >= 0, t_ < 1, b_ >= 0, b_ <= 359)
+            if account and not twin_done and tuple(wrap) in ((False, True), (False, False)):
+                run.twin(s, "C19 smoothing: an observation is assigned before and after the rotation")
+                run.paths["explored"] += len(regimes)
+                twin_done = True
+            # further split over the regime of the loop body before / after the rotation
+            for pa, pb in itertools.product(range(len(regimes)), repeat=2):
+                ra, rb = regimes[pa], regimes[pb]
+                s.push()
+                s.add(inst(ra["pc"], ka, wa), inst(rb["pc"], kb, wb))
+                s.add(z3.Or([z3.Xor(inst(ra["sel"][j], ka, wa), inst(rb["sel"][j], kb, wb)) for j in (0, 1)]))
+                sc2 = dict(scn, half_window=hwv, wraps=list(wrap), regimes_before_after=[pa, pb])
+                s.set("timeout", 6000)
+                res = str(s.check())
+                m = s.model() if res == "sat" else None
+                if res == "unknown":
+                    # second strategy: the mixed integer/real linear core
+                    s2 = z3.SolverFor("QF_LIRA")
+                    s2.add(s.assertions())
+                    if account:
+                        res = run.solve(s2, "median_selection_invariant_under_common_rotation", sc2, timeout_ms=240000)
+                    else:
+                        s2.set("timeout", 120000)
+                        res = str(s2.check())
+                    m = s2.model() if res == "sat" else None
+                elif account:
+                    run.queries[res] += 1
+                    o = run.ob("median_selection_invariant_under_common_rotation")
+                    o["queries"] += 1
+                    o[res] += 1
+                    run.nontrivial.add(("median_selection_invariant_under_common_rotation", repr(sc2)))
+                s.pop()
+                if res == "sat":
+                    vals = {str(d): str(m[d]) for d in m.decls()}
+                    found.append(("median_selection_invariant_under_common_rotation", sc2, vals))
+                    break
+            if found:
+                break
+        if found:
+            if not account:
+                return found
+            break
+    # the assigned bin is the observation's own 1-degree bin (exactly one iteration assigns it)
+    s2 = z3.Solver()
+    s2.add(hw0 >= hw_lo, hw0 <= hw_hi, ka >= 0, ka <= 359)
+    for w in wa:
+        s2.add(w >= 0, w < 360)
+    s2.add(z3.Xor(Assign(0, ka, wa), z3.And(wa[0] >= z3.ToReal(ka), wa[0] < z3.ToReal(ka) + 1)))
+    if account:
+        res2 = run.solve(s2, "estimate_assigned_in_the_observations_own_bin", scn)
+    else:
+        s2.set("timeout", 60000)
+        res2 = str(s2.check())
+    if res2 == "sat":
+        found.append(("estimate_assigned_in_the_observations_own_bin", scn, {}))
+    return found
